@@ -38,8 +38,8 @@ type fileCfg struct {
 	goFns  []string // T-go: enclosing function names whose go statements become threads
 	consts map[string]string
 	gates  map[string]string // function name -> gate name (T-gate)
-	// T-gate inside a function: function name -> {identifier, gate name}: the gate goes right before
-	// the statement "if <identifier> {" of that function (must exist exactly once)
+	// T-gate inside a function: function name -> {channel field, gate name}: the gate goes right before
+	// the statement of that function that sends on a channel field of that name (optional hook)
 	gateBeforeIf map[string][2]string
 }
 
@@ -83,7 +83,7 @@ func main() {
 		"pkg/stub/stub.go":                       {mapr: true, gates: map[string]string{"connClosed": "stub.connClosed"}},
 		"pkg/runtime-tools/generate/generate.go": {mapr: true},
 		"pkg/net/conn.go":                        {},
-		"pkg/net/multiplex/mux.go":               {mapr: true, gateBeforeIf: map[string][2]string{"reader": {"ok", "mux.queue"}}},
+		"pkg/net/multiplex/mux.go":               {mapr: true, gateBeforeIf: map[string][2]string{"reader": {"readC", "mux.queue"}}},
 		"pkg/net/multiplex/ttrpc.go":             {},
 	}
 	// T-sync is applied to the multiplexer only in the fully controlled build: in the base build
@@ -216,35 +216,55 @@ func (in *inst) run() {
 			count(in.rel, "T-gate")
 		}
 		if g, ok := in.cfg.gateBeforeIf[fd.Name.Name]; ok {
+			// the gate goes in front of the statement (of the innermost enclosing block list) that
+			// contains a send on a channel field named g[0]; the hook is optional: a tree in which the
+			// function no longer has such a send is built without it
 			var recv ast.Expr = ast.NewIdent("nil")
 			if fd.Recv != nil && len(fd.Recv.List) == 1 && len(fd.Recv.List[0].Names) == 1 {
 				recv = ast.NewIdent(fd.Recv.List[0].Names[0].Name)
 			}
+			hasSend := func(n ast.Node) bool {
+				found := false
+				ast.Inspect(n, func(x ast.Node) bool {
+					if ss, ok := x.(*ast.SendStmt); ok {
+						if sel, ok := ss.Chan.(*ast.SelectorExpr); ok && sel.Sel.Name == g[0] {
+							found = true
+						}
+					}
+					return !found
+				})
+				return found
+			}
 			n := 0
-			ast.Inspect(fd.Body, func(x ast.Node) bool {
-				b, ok := x.(*ast.BlockStmt)
-				if !ok {
-					return true
-				}
+			var visit func(b *ast.BlockStmt)
+			visit = func(b *ast.BlockStmt) {
 				for i := 0; i < len(b.List); i++ {
-					ifs, ok := b.List[i].(*ast.IfStmt)
-					if !ok || ifs.Init != nil {
+					st := b.List[i]
+					if !hasSend(st) {
 						continue
 					}
-					if id, ok := ifs.Cond.(*ast.Ident); ok && id.Name == g[0] {
-						gate := &ast.ExprStmt{X: vs("Gate", &ast.BasicLit{Kind: token.STRING, Value: strconv.Quote(g[1])}, recv)}
-						b.List = append(b.List[:i], append([]ast.Stmt{gate}, b.List[i:]...)...)
-						i++
-						n++
+					// descend while a nested block (for / if body) holds the send on its own
+					switch x := st.(type) {
+					case *ast.ForStmt:
+						visit(x.Body)
+						continue
+					case *ast.BlockStmt:
+						visit(x)
+						continue
 					}
+					gate := &ast.ExprStmt{X: vs("Gate", &ast.BasicLit{Kind: token.STRING, Value: strconv.Quote(g[1])}, recv)}
+					b.List = append(b.List[:i], append([]ast.Stmt{gate}, b.List[i:]...)...)
+					i++
+					n++
 				}
-				return true
-			})
-			if n != 1 {
-				fatal(fmt.Errorf("%s: T-gate %s: expected exactly one 'if %s {' in %s, found %d", in.rel, g[1], g[0], fd.Name.Name, n))
 			}
-			in.needVs = true
-			count(in.rel, "T-gate")
+			visit(fd.Body)
+			if n > 0 {
+				in.needVs = true
+				count(in.rel, "T-gate")
+			} else {
+				warn("%s: optional T-gate %s not inserted: %s has no send on a field named %s", in.rel, g[1], fd.Name.Name, g[0])
+			}
 		}
 	}
 	if in.cfg.chans {
